@@ -84,7 +84,7 @@ def main():
         shutil.rmtree(scratch, ignore_errors=True)
     # run the checks against /repo with the change applied
     checks = {}
-    if result["confirmed"]:
+    if result["confirmed"] and "--no-checks" not in sys.argv:
         man = json.load(open(os.path.join(VERIF, "MANIFEST.json")))
         ids = props or [c["property_id"] for c in man["checks"]]
         st = subprocess.run(["git", "-C", "/repo", "status", "--porcelain", "--untracked-files=no"], capture_output=True, text=True).stdout.strip()
@@ -103,6 +103,9 @@ def main():
             os.remove(f)
     result["checks_with_change_applied"] = checks
     result["caught_by"] = sorted(k for k, v in checks.items() if v["exit"] == 1)
+    if "--no-checks" in sys.argv:
+        # confirmation only (scratch copy); which check catches it was established separately (see `note`)
+        result["note"] = os.environ.get("VX_SEED_NOTE", "")
     result["what_was_run"] = ["cargo test -p rnacos --lib --offline (scratch copy with patch)", "demo test with / without patch", "./check <id> --no-evidence with patch applied to /repo, then git checkout"]
     json.dump(result, open(os.path.join(out_dir, "meta.json"), "w"), indent=1)
     print(json.dumps({k: result[k] for k in ("property", "confirmed", "caught_by", "suite_with_change", "demo") if k in result}, indent=1)[:1500])
